@@ -17,6 +17,7 @@ LEVEL_TEXT = (
     "there is none, and a wait target equal to it when no daylight-saving shift is involved; the dispatched trigger_time is "
     "the wall-clock instant; the startup run is consumed once and the shutdown run is issued from stop()"
     "; the DST-adjusted wait target is only ever subtracted from the `now` it was computed for, and after a dispatch the next instant is computed from a newer clock reading (or the instant itself)"
+    '; startup/shutdown keywords are recognised wherever and however often they occur; once() with a year-less date, a weekday or a leap day denotes the next recurrence on concrete calendars; the start-up time is fixed for the lifetime of a wait'
 )
 LEVEL_NOTE = (
     "honest limit: date/time/offset parsing, croniter and DST arithmetic are numeric and summarised by abstract instants "
